@@ -265,10 +265,26 @@ def _run(ctx):
     # a chain with backbone hydrogen bonds to titratable groups (rare in short fragments)
     t3 = dict(pdbgen.test_files(["3SGB"]))["3SGB"]
     parts.append(("3SGB-chain-I", [l for l in pdbgen.lines_of(t3) if l.startswith("ATOM") and l[21] == "I"]))
+    # two copies of one ligand in its binding pocket (methotrexate of 4DFR with the residues within 9 A), the second copy without
+    # its N-methyl carbon: equal residue and atom names in both parts, different chemistry - each part must be perceived from its
+    # own geometry, whatever else the file holds
+    t4 = pdbgen.lines_of(dict(pdbgen.test_files(["4DFR"]))["4DFR"])
+    mtx = [l for l in t4 if l.startswith("HETATM") and l[17:20] == "MTX" and l[21] == "A" and l[16] in " A"]
+    if mtx:
+        mc = [pdbgen.coords(l) for l in mtx]
+        near = {pdbgen.res_key(l) for l in t4 if l.startswith("ATOM") and l[21] == "A" and l[16] in " A"
+                and any(sum((a - b) ** 2 for a, b in zip(pdbgen.coords(l), c)) < 81.0 for c in mc)}
+        pocket = [pdbgen.setcols(l, 16, 17, " ") for l in t4 if l.startswith("ATOM") and l[16] in " A" and pdbgen.res_key(l) in near]
+        lig = [pdbgen.setcols(l, 16, 17, " ") for l in mtx]
+        parts.append(("4DFR-MTX-pocket", pocket + lig))
+        parts.append(("4DFR-MTX-pocket-without-CM", pocket + [l for l in lig if l[12:16].strip() != "CM"]))
     seps = [30.0, 100.0, 999.0, 1500.0, 9000.0]
     bad, far_bad = [], []
     for k in range(10 if ctx.quick() else 120):
         (na, la), (nb, lb) = rnd.sample(parts, 2)
+        if k == 0 and any(p[0] == "4DFR-MTX-pocket" for p in parts):
+            (na, la), (nb, lb) = [p for p in parts if p[0] == "4DFR-MTX-pocket"][0], [p for p in parts if p[0] == "4DFR-MTX-pocket-without-CM"][0]
+            ctx.count("unions of two copies of one ligand with different chemistry")
         trunc = [p for p in parts if p[0].endswith("-truncated") and p[0] != nb]
         if k % 3 == 1 and trunc:
             na, la = rnd.choice(trunc)
